@@ -65,6 +65,8 @@ fn joint_names(naming: &str, tag: &str) -> [String; 6] {
         "kuka-a" => format!("${{prefix}}joint_a{}", i + 1),
         "literal-prefix-a" => format!("left_arm_joint_a{}", i + 1),      // a literal prefix that contains the tag letter
         "literal-prefix" => format!("leftJOINT_{}!", i + 1),            // the form used in the crate's own unit test
+        // a prefix with capital letters whose lower-case forms have another length in UTF-8 (U+1E9E, U+0130)
+        "unicode-prefix" => format!("\u{1E9E}\u{0130}_Arm_joint_{}", i + 1),
         _ => format!("{}_axis_{}", tag, i),
     })
 }
@@ -141,7 +143,28 @@ pub fn replay(input: &str, output: &str) {
         let desc = json!({"layout": class, "syntax": syn, "xml": xml});
         let needs_b = line["needs_b"].as_bool().unwrap();
         let want = |k: &str| sp.vals[k];
-        match extract(&xml, &names) {
+        // the same document read in the other way of naming the joints (an explicit list of the names as written, or
+        // none when the variant has one), before or after the main extraction: neither influences the other
+        let raw: Option<[String; 6]> = if names.is_some() { None } else { Some(joint_names(line["naming"].as_str().unwrap(), "lf")) };
+        let other_first = if id % 4 == 1 && line["copies"] != "second-robot" { Some(extract(&xml, &raw)) } else { None };
+        let main = extract(&xml, &names);
+        let other_after = if id % 4 == 3 && line["copies"] != "second-robot" { Some(extract(&xml, &raw)) } else { None };
+        if names.is_none() {
+            // (explicit names must find the same robot)
+            for (o, when) in [(&other_first, "before"), (&other_after, "after")] {
+                if let (Some(o), Got::Ok(m)) = (o, &main) {
+                    evals += 1;
+                    match o {
+                        Got::Ok(p) => if p.a1 != m.a1 || p.a2 != m.a2 || p.b != m.b || p.c1 != m.c1 || p.c2 != m.c2 || p.c3 != m.c3 || p.c4 != m.c4 || p.sign_corrections != m.sign_corrections || p.from != m.from || p.to != m.to {
+                            out.put(json!({"sig": "urdf:explicit-names-give-another-robot", "detail": format!("explicit extraction {} the plain one; {}", when, desc), "data": desc}));
+                        },
+                        Got::Err(e) => out.put(json!({"sig": format!("urdf:explicit-names-rejected:names-{}", line["naming"].as_str().unwrap()), "detail": format!("{} ({} the plain extraction); {}", e, when, desc), "data": desc})),
+                        Got::Panic => out.put(json!({"sig": "urdf:extraction-panics:explicit-names", "detail": desc.to_string(), "data": desc})),
+                    }
+                }
+            }
+        }
+        match main {
             Got::Panic => out.put(json!({"sig": format!("urdf:extraction-panics:{}", line["naming"].as_str().unwrap()), "detail": desc.to_string(), "data": desc})),
             Got::Err(e) => out.put(json!({"sig": format!("urdf:valid-description-rejected:{}:names-{}:{}", class, line["naming"].as_str().unwrap(), line["copies"].as_str().unwrap()), "detail": format!("{}; {}", e, desc), "data": desc})),
             Got::Ok(p) => {
@@ -191,7 +214,9 @@ pub fn replay(input: &str, output: &str) {
             let mut faults: Vec<(&str, String)> = Vec::new();
             let first = format!("name=\"{}\"", joint_names(line["naming"].as_str().unwrap(), "lf")[2]);
             faults.push(("missing-joint", xml.replacen(&first, "name=\"somethingelse\"", if line["copies"] == "identical-duplicate" { 2 } else { 1 })));
-            faults.push(("truncated-xml", xml[..xml.len() * 2 / 3].to_string()));
+            let mut cut = xml.len() * 2 / 3;
+            while !xml.is_char_boundary(cut) { cut -= 1; }
+            faults.push(("truncated-xml", xml[..cut].to_string()));
             faults.push(("short-xyz", xml.replacen("<origin xyz=\"0 0 0.33\"", "<origin xyz=\"0 0\"", 1)));
             faults.push(("non-numeric-xyz", xml.replacen("<origin xyz=\"0 0 0.33\"", "<origin xyz=\"a b c\"", 1)));
             faults.push(("bad-limit", xml.replacen("lower=\"", "lower=\"abc", 1)));
